@@ -176,6 +176,9 @@ func (g *registry) str(s string) string {
 	return "(bytes_of " + vh.CoqList(xs) + ")"
 }
 
+// codeFix5: the tree under test has C13-fix-5 (probed in main).
+var codeFix5 bool
+
 func parseTimeText(s string) (time.Time, bool) {
 	nt := mysql.NullTime{}
 	if err := nt.Scan(s); err != nil || !nt.Valid {
@@ -264,9 +267,10 @@ func (g *registry) prelude() string {
 	}
 	// times are concrete in the model (CodecTime.time_env): only the float tables enter the environment; the
 	// time tables computed by Go are compared with the model's own formatting / parsing
-	return "Definition FT := " + vh.CoqList(ft) + ".\nDefinition PF := " + vh.CoqList(pf) + ".\nDefinition TT := " + vh.CoqList(tt) +
+	return "Definition FT : list (Z * ftab_entry) := " + vh.CoqList(ft) + ".\nDefinition PF : list (string * option Z) := " + vh.CoqList(pf) +
+		".\nDefinition TT : list (Z * ttab_entry) := " + vh.CoqList(tt) +
 		".\nDefinition PT : list (string * option Z) := " + vh.CoqList(pt) +
-		".\nDefinition mm (o : nat) cs := mismatches_ct FT PF TT PT o cs.\n"
+		".\nDefinition mm (o : nat) cs := mismatches_ct5 " + vh.CoqBool(codeFix5) + " FT PF TT PT o cs.\n"
 }
 
 // ---------- Go values -> model terms ----------
@@ -1150,6 +1154,16 @@ func main() {
 	run.Rule = "one case = one random value of one of 8 catalogue struct types (68 columns: ints/uints of every width, floats, bool, string, named scalars, []byte, time, pointers, binary/string/json tags, implicitnull, Valuer/Scanner type), re-encoded into 4 rows over random MySQL column types x {text, prepared, binlog} paths plus 1 malformed row, a permuted binlog row, and 4 filters (own values, another value's, pointer/nil variants, mistyped) x 3 rows through MakeTester and the protobuf round trip; non-trivial = at least one non-NULL column and the value not seen before; distinct by the printed struct"
 	schema := newSchema()
 	r := vh.NewRng(o.Seed)
+	// Which Valuer the tree under test has (proposed repair C13-fix-5: a non-nil pointer handed in for a column
+	// whose type is not a pointer is dereferenced first).  One value decides which of the two model functions the
+	// correspondence evaluates; the property itself is judged by the oracle either way (the ambiguous pointer
+	// filters are failures of an open known finding before the repair and must not occur after it).
+	{
+		f := false
+		v, err := schema.ByName["implicit"].ColumnsByName["e"].Descriptor.Valuer(reflect.ValueOf(&f)).Value()
+		codeFix5 = err == nil && v == nil
+		run.Hist(fmt.Sprintf("code:valuer-dereferences-pointer-for-non-pointer-column=%v", codeFix5))
+	}
 
 	var cases []Case
 	searching := o.Search != ""
